@@ -131,6 +131,9 @@ func c01Ops(c *core.Ctx, s fScenario) {
 		if st.Op.Kind == "block" && len(st.Op.Block.Dels) > 0 {
 			sawDel = true
 		}
+		if st.Quiet {
+			return
+		}
 		trig := "after-" + st.Op.Kind
 		checkRoots(c, st.W, st.F, st.When, func(site, clause, _, detail string) { fail(site, clause, trig, detail) })
 		c.Count("states_after_"+st.Op.Kind, 1)
